@@ -30,7 +30,8 @@ ASSUMPTIONS = [
 @st.composite
 def params(draw, tier):
     p = {"img_mode": draw(st.sampled_from(["F", "F", "L"])),
-         "img_kind": draw(st.sampled_from(["random", "random", "gradient", "uniform"])),
+         # 'negative': a background-subtracted float channel whose values (and mean) are negative
+         "img_kind": draw(st.sampled_from(["random", "random", "gradient", "uniform", "negative"])),
          "W": draw(st.integers(40, 160)), "H": draw(st.integers(40, 160)), "iseed": draw(st.integers(0, 2 ** 32 - 1)),
          "layers": draw(st.integers(0, 3)), "integrate": draw(st.booleans()),
          "normalize": draw(st.sampled_from([None, "average"])),
@@ -63,12 +64,14 @@ def make_image(p, factor=1.0):
     H, W = p["H"], p["W"]
     if p["img_kind"] == "random":
         a = rng.uniform(0, 200, size=(H, W))
+    elif p["img_kind"] == "negative":
+        a = rng.uniform(-200, -1, size=(H, W))
     elif p["img_kind"] == "gradient":
         yy, xx = np.mgrid[0:H, 0:W]
         a = 1.0 + 0.7 * xx + 0.3 * yy
     else:
         a = np.full((H, W), 37.0)
-    if p["img_mode"] == "L" and factor == 1.0:
+    if p["img_mode"] == "L" and factor == 1.0 and p["img_kind"] != "negative":
         arr = np.clip(np.floor(a), 0, 255).astype(np.uint8)
         return Image.fromarray(arr, mode="L"), arr.astype(np.float64)
     arr = (a * factor).astype(np.float32)
